@@ -27,7 +27,35 @@ var varPool = []string{"GTV_A", "gtv_b", "GtvC9", "X9", "_u", "A", "GTV_LONG_NAM
 var spacings = []string{"", "", "", " ", " ", "  ", "\t", " \t ", "   ", "\n", " \r\n "}
 
 var defaults = []string{"some-default", `""`, `"quoted"`, "a b c", "x", "0", `"""`, `"a"b"`, "http://h:1/p?q=1",
-	"with | pipe", "}", "a}}b", "x}}", "|lead", "${{env:X9}}", "é", "-", `'single'`, "tab\tinside", `"  spaced  "`}
+	"with | pipe", "}", "a}}b", "x}}", "|lead", "${{env:X9}}", "é", "-", `'single'`, "tab\tinside", `"  spaced  "`,
+	// backslashes and escape-like sequences are ordinary characters of a default; only surrounding
+	// DOUBLE quotes are stripped: single-quoted, back-quoted and nested-quote spellings stay as written
+	`"C:\temp\new"`, `"a\\b"`, `"say \"hi\""`, `"tab\there"`, `"nl\nhere"`, `"\x41"`, `"\u00e9"`, `"\101"`, `"\""`, `"\\"`,
+	`C:\temp\new`, `a\tb`, `\`, `\n`, `'x'`, `'\n'`, "`raw`", "`a\\tb`", `"'x'"`, `'"x"'`, `"nested "inner" quotes"`, `""x""`,
+	`k=v`, `a=b=c==`, `"x=y"`}
+
+const defaultChars = "abXY09\\\"'`=|{}$ tnxu-_./:é"
+
+// randomDefault: random text of the documented grammar (non-empty, no line break, first and
+// last character not blank), biased to backslashes and the three kinds of quotes.
+func (t *tgen) randomDefault() string {
+	rs := []rune(defaultChars)
+	for {
+		n := 1 + t.r.IntN(10)
+		b := make([]rune, n)
+		for i := range b {
+			b[i] = rs[t.r.IntN(len(rs))]
+		}
+		if t.r.IntN(3) == 0 { // a quoted spelling
+			q := []rune{'"', '\'', '`'}[t.r.IntN(3)]
+			b = append(append([]rune{q}, b...), q)
+		}
+		s := string(b)
+		if s[0] != ' ' && s[len(s)-1] != ' ' {
+			return s
+		}
+	}
+}
 
 const wordChars = "ABCDEFGHIJKLMNOPQRSTUVWXYZabcdefghijklmnopqrstuvwxyz0123456789_"
 
@@ -84,6 +112,32 @@ func (t *tgen) name() string {
 	return nm
 }
 
+// values of set variables: ordinary ones, values containing `=` (leading, trailing, several: base64
+// padding, DSN-like option strings), values that look like templates or are quoted, blanks, line
+// breaks, non-ASCII text, very long values, and random printable text.  (The value is handed on
+// verbatim, whatever it contains; an environment value cannot hold a NUL.)
+var envValues = []string{"value", "aws:secret", "  padded ", "${{env:GTV_A}}", "D1c", "3m", "é",
+	"c2VjcmV0cGFk==", "host=db port=5432", "=x", "x=", "=", "a=b=c", "k=${{env:GTV_A|d}}", `"quoted"`, `'single'`,
+	"${{env:X9 | \"d\"}}", "line1\nline2", "tab\tin", "C:\\temp\\new", "日本語=値", "}}", "|", "\\"}
+
+const valueChars = "abcXYZ019 =:/\\\"'|{}$-_.,;é"
+
+func (t *tgen) value() string {
+	switch x := t.r.IntN(10); {
+	case x < 6:
+		return envValues[t.r.IntN(len(envValues))]
+	case x < 7: // very long, with `=` somewhere inside
+		return strings.Repeat("long-value-", 150+t.r.IntN(150)) + "=" + strings.Repeat("z", t.r.IntN(40))
+	}
+	rs := []rune(valueChars)
+	n := 1 + t.r.IntN(14)
+	b := make([]rune, n)
+	for i := range b {
+		b[i] = rs[t.r.IntN(len(rs))]
+	}
+	return string(b)
+}
+
 // setupEnv decides, per pool variable, set / set-empty / unset (on top of the dimension env).
 func (t *tgen) setupEnv(dimEnv map[string]string) {
 	t.env = map[string]string{}
@@ -97,7 +151,7 @@ func (t *tgen) setupEnv(dimEnv map[string]string) {
 		}
 		switch t.r.IntN(3) {
 		case 0:
-			t.env[n] = []string{"value", "aws:secret", "  padded ", "${{env:GTV_A}}", "D1c", "3m", "é"}[t.r.IntN(7)]
+			t.env[n] = t.value()
 		case 1:
 			t.env[n] = ""
 		}
@@ -113,6 +167,9 @@ func (t *tgen) template() (s string, exp string, ok bool) {
 	switch t.r.IntN(5) {
 	case 0, 1:
 		dflt = defaults[t.r.IntN(len(defaults))]
+		if t.r.IntN(4) == 0 {
+			dflt = t.randomDefault()
+		}
 		sb.WriteString("|" + t.ws() + dflt)
 	case 2:
 		sb.WriteString("|") // a pipe without default
@@ -245,6 +302,16 @@ func main() {
 		run(set, m("k", m("D1a", s("${{env:GTV_NOT}}"), "default", s("fine"))))
 		// keys are never templates
 		run(set, m("${{env:GTV_A}}", s("v")))
+		// defaults with backslashes / escape-like sequences / other quote characters: only the
+		// surrounding double quotes go, nothing is interpreted
+		for _, d := range []string{`"C:\temp\new"`, `"a\\b"`, `"say \"hi\""`, `"\x41\u00e9\101"`, `'x'`, "`raw`", `a\tb`, `"k=v"`} {
+			run(set, m("k", s("${{env:GTV_NOT | "+d+" }}"), "l", gcx.List(s("${{env:GTV_NOT|"+d+"}}"))))
+		}
+		// values of set variables are taken verbatim: `=` anywhere, template-like, quoted, long
+		for _, v := range []string{"c2VjcmV0cGFk==", "host=db port=5432", "=x", "x=", "=", "a=b=c", "${{env:GTV_A}}", `"q"`,
+			strings.Repeat("long=", 400)} {
+			run(map[string]string{"GTV_A": v, "X9": "plain"}, m("k", s("${{env:GTV_A}}"), "l", gcx.List(s("${{ env: GTV_A | d }}"), s("${{env:X9}}"))))
+		}
 		// measured quirks of the pattern (outside the property's space)
 		run(set, m("k", s("${{env:GTV_NOT}}}}"), "l", s("${{env:GTV_NOT B}}")))
 	case "replay":
